@@ -242,7 +242,11 @@ func c04Run(r *sim.Run) {
 	// ---- consumers
 	nCons := 1 + t.Draw(2)
 	for ci := 0; ci < nCons; ci++ {
-		cons := t.Draw(5)
+		cons := t.Draw(6)
+		if cons == 5 {
+			c04SingleBox(r, disk)
+			continue
+		}
 		flags := []mp4.DecFileFlags{mp4.DecNoFlags, mp4.DecISMFlag, mp4.DecStartOnMoof, mp4.DecISMFlag | mp4.DecStartOnMoof}[t.Draw(4)]
 		var f *mp4.File
 		var err error
@@ -319,6 +323,11 @@ func c04Run(r *sim.Run) {
 				continue
 			}
 			f.FragEncMode = mode
+			if t.Chance(300) { // trun optimisation is an encode option too
+				f.EncOptimize = mp4.OptimizeTrun
+			} else {
+				f.EncOptimize = mp4.OptimizeNone
+			}
 			var sz uint64
 			c04Step(r, "Size", n, func() { sz = f.Size() })
 			if cons == 2 {
@@ -335,12 +344,72 @@ func c04Run(r *sim.Run) {
 	}
 }
 
+// c04SingleBox decodes ONE box taken from any depth of the (damaged) stream on its own, by either path,
+// so that leaf decoders are reached without their parents' size checks in front of them; then Info/Size/Encode.
+func c04SingleBox(r *sim.Run, disk []byte) {
+	t := r.T
+	top, _ := ref.Walk(disk, 0, int64(len(disk)), true)
+	flat := ref.Flatten(top)
+	if len(flat) == 0 {
+		return
+	}
+	b := flat[t.Draw(len(flat))]
+	raw := append([]byte(nil), disk[b.Start:b.End()]...)
+	// optional extra damage local to this box: cut its tail or enlarge/shrink its size field
+	switch t.Draw(4) {
+	case 1:
+		raw = raw[:t.Draw(len(raw)+1)]
+		r.Fault("box-tail-cut")
+	case 2:
+		if len(raw) >= 4 {
+			binary.BigEndian.PutUint32(raw, uint32(len(raw)+1+t.Draw(64)))
+			r.Fault("box-size-inflated")
+		}
+	case 3:
+		if len(raw) >= 4 && len(raw) > 8 {
+			binary.BigEndian.PutUint32(raw, uint32(8+t.Draw(len(raw)-8)))
+			r.Fault("box-size-deflated")
+		}
+	}
+	n := len(raw)
+	var box mp4.Box
+	var err error
+	viaSR := t.Bool()
+	if viaSR {
+		c04Step(r, "DecodeBoxSR", n, func() { box, err = mp4.DecodeBoxSR(uint64(b.Start), bits.NewFixedSliceReader(raw)) })
+	} else {
+		h := sim.NewHandle(r, "box", raw, sim.DrawDelivery(t))
+		c04Step(r, "DecodeBox", n, func() { box, err = mp4.DecodeBox(uint64(b.Start), sim.StreamReader{H: h}) })
+	}
+	r.Logf("single box %s@%d (%d bytes, depth %d) viaSR=%v -> err=%v", b.Type, b.Start, n, b.Depth, viaSR, err)
+	r.Event("single-box", int(sim.HashString(b.Type)&0xffff), btoi(viaSR), btoi(err == nil))
+	if err != nil || box == nil {
+		return
+	}
+	r.Probe("single-box-accepted")
+	for _, lvl := range []string{"", "all:1", "all:2"} {
+		lvl := lvl
+		cs := sim.NewSink(nil)
+		cs.Discard = true
+		c04Step(r, "Info(box)", n, func() { _ = box.Info(cs, lvl, "", "  ") })
+	}
+	var sz uint64
+	c04Step(r, "Size(box)", n, func() { sz = box.Size() })
+	cs := sim.NewSink(nil)
+	cs.Discard = true
+	c04Step(r, "Encode(box)", n, func() { _ = box.Encode(cs) })
+	if sz < 64<<20 {
+		sw := bits.NewFixedSliceWriter(int(sz) + 64)
+		c04Step(r, "EncodeSW(box)", n, func() { _ = box.EncodeSW(sw) })
+	}
+}
+
 func init() {
 	sim.Register(&sim.Prop{
 		ID:    "C04",
 		Level: "exploration",
 		Rule: "each run: a corpus file (<=512 kB) or a packager stream suffers 1..n compounding faults: unit transport at any depth (drop/duplicate/swap/move/splice, enclosing sizes repaired or left stale), 0-3 stored-byte faults placed by an independent header walk on size, type, version/flags, count and early fields " +
-			"(bit flip, u32 := ffffffff/7fffffff/80000000/0/small/+small, zeroed range, misdirected range), truncation, EIO at read k, seek error, short/zero/data+EOF delivery; 1-2 consumers (DecodeFile reader path, lazy-mdat mode on SimDisk, DecodeFileSR, DecodeBox/DecodeBoxSR loop) x flags {none, ISM, start-on-moof, both}; " +
+			"(bit flip, u32 := ffffffff/7fffffff/80000000/0/small/+small, zeroed range, misdirected range), truncation, EIO at read k, seek error, short/zero/data+EOF delivery; 1-2 consumers (a single box taken from any depth decoded on its own by DecodeBox/DecodeBoxSR with optional local size damage, DecodeFile reader path, lazy-mdat mode on SimDisk, DecodeFileSR, DecodeBox/DecodeBoxSR loop) x flags {none, ISM, start-on-moof, both}; " +
 			"on success Info at '', all:1, all:2, Size, Encode and EncodeSW in both fragment encode modes. Every library call is a step under three oracles: no panic, allocated bytes <= 160 MiB + 768/byte, wall <= 2 s + 200 us/byte (confirmed 3x; hangs by the coordinator watchdog in fresh processes). " +
 			"non-trivial = at least one fault fired; distinct = hash of (base, transport ops, byte faults, delivery, consumers, accept/reject outcomes).",
 		Assumptions: []string{"budget constants are ours (the property fixes none): chosen >=10x above the maxima measured on the unchanged tree (reported as measured_maxima) ", "Go cannot inject allocation failure: memory is measured (runtime/metrics heap allocs), not faulted",
@@ -352,6 +421,6 @@ func init() {
 		Run:         c04Run,
 		FatalIsViol: true,
 		WantFaults:  []string{"unit-dropped", "unit-duplicated", "unit-reordered", "unit-moved", "unit-spliced", "sizes-left-unrepaired", "stored-bitflip", "stored-u32=ffffffff", "stored-zeroed-range", "stored-misdirected-range", "disk-truncated", "read-eio", "seek-eio", "read-short", "read-zero"},
-		WantProbes:  []string{"decode-accepted-faulty-input", "decode-rejected"},
+		WantProbes:  []string{"decode-accepted-faulty-input", "decode-rejected", "single-box-accepted"},
 	})
 }
